@@ -1401,6 +1401,74 @@ impl Mut {
         }
     }
 
+    /// C35 (third clause): the cells a native mark-sweep space hands out for each size class are
+    /// cell-size strided from the block start and lie entirely within their 64 KiB block.
+    /// Raw allocations (never initialised as objects, reclaimed by the next GC).
+    fn run_msblocks(&mut self) {
+        use mmtk::verif::ms;
+        let w = world();
+        let sizes = ms::bin_sizes();
+        let block = ms::block_bytes();
+        let sem = if w.cfg.plan == "MarkSweep" { SEM_DEFAULT } else { SEM_NONMOVING };
+        let mut cells = 0u64;
+        let mut blocks_seen: std::collections::HashSet<usize> = Default::default();
+        for round in 0..2 {
+            for (bin, &cell) in sizes.iter().enumerate() {
+                if cell == 0 || cell > ms::MAX_BIN_SIZE || bin == 0 {
+                    continue;
+                }
+                if sem == SEM_NONMOVING && cell > 2048 {
+                    continue;
+                }
+                // a request of exactly the cell size with the minimum alignment lands in this bin
+                if ms::mi_bin::<VerifVM>(cell, 8) != bin {
+                    continue;
+                }
+                let n = 2 * (block / cell) + 3;
+                let mut per_block: std::collections::HashMap<usize, Vec<usize>> = Default::default();
+                for _ in 0..n {
+                    world::safepoint_poll();
+                    w.last_progress.fetch_add(1, Ordering::Relaxed);
+                    let a = self.raw_alloc(cell, 8, 0, sem);
+                    if a.is_zero() {
+                        break;
+                    }
+                    let a = a.as_usize();
+                    cells += 1;
+                    let b = a & !(block - 1);
+                    blocks_seen.insert(b);
+                    per_block.entry(b).or_default().push(a);
+                    if (a - b) % cell != 0 {
+                        violation("C35", format!("ms-cell:not-strided-from-block-start:bin{}", bin), format!("alloc({}) returned {:#x}: offset {} in its block is not a multiple of the cell size {} (bin {})", cell, a, a - b, cell, bin));
+                    }
+                    if (a - b) + cell > block {
+                        violation("C35", format!("ms-cell:crosses-the-end-of-its-block:bin{}", bin), format!("alloc({}) returned {:#x}: the cell [{},{}) of size class {} (bin {}) ends beyond its {} byte block", cell, a, a - b, a - b + cell, cell, bin, block));
+                    }
+                }
+                for (b, v) in per_block.iter_mut() {
+                    v.sort();
+                    for p in v.windows(2) {
+                        if p[1] - p[0] < cell {
+                            violation("C35", format!("ms-cell:overlapping-cells:bin{}", bin), format!("block {:#x}: cells at {:#x} and {:#x} of size {} overlap", b, p[0], p[1], cell));
+                        }
+                    }
+                }
+                with_report("C35", |r| {
+                    r.evaluations += n as u64;
+                    r.count("size_classes_allocated_live", 1);
+                    r.key(mix(0xC35, mix(bin as u64, round)));
+                });
+            }
+            // reclaim everything (nothing is reachable) and go again over recycled blocks
+            self.op_user_gc(false);
+        }
+        with_report("C35", |r| {
+            r.count("live_cells_checked", cells);
+            r.count("live_blocks_seen", blocks_seen.len() as u64);
+            r.sample(J::obj(vec![("plan", J::s(w.cfg.plan.clone())), ("cells", J::i(cells)), ("blocks", J::i(blocks_seen.len() as u64)), ("block_bytes", J::i(block as u64))]));
+        });
+    }
+
     fn sem_supported(&self, sem: u8) -> bool {
         let cfg = &world().cfg;
         if sem == SEM_NONMOVING && cfg!(any(feature = "var_a", feature = "var_b")) && (cfg.plan == "MarkCompact" || cfg.plan == "ConcurrentImmix" || cfg.is_generational()) {
@@ -1421,6 +1489,9 @@ impl Mut {
         }
         if cfg.scenario == "oom" {
             return self.run_oom(ops);
+        }
+        if cfg.scenario == "msblocks" {
+            return self.run_msblocks();
         }
         if cfg.scenario == "fork" && self.idx != 0 {
             return self.run_gc_requester(ops);
